@@ -100,8 +100,10 @@ impl FromStr for MatchResult {
         fn find_next_field(s: &str, start_pos: usize) -> Result<(&str, usize), PriceLevelError> {
             let mut pos = start_pos;
 
+            // `pos` advances byte by byte; look at the byte (`;` is ASCII) rather than
+            // slicing, which panics inside a multi-byte character
             while pos < s.len() {
-                if s[pos..].starts_with(';') {
+                if s.as_bytes()[pos] == b';' {
                     let value = &s[start_pos..pos];
                     return Ok((value, pos + 1));
                 }
@@ -160,13 +162,13 @@ impl FromStr for MatchResult {
                     let mut i = pos + "Transactions:[".len();
 
                     while i < s.len() && bracket_depth > 0 {
-                        if s[i..].starts_with(']') {
+                        if s.as_bytes()[i] == b']' {
                             bracket_depth -= 1;
                             if bracket_depth == 0 {
                                 break;
                             }
                             i += 1;
-                        } else if s[i..].starts_with('[') {
+                        } else if s.as_bytes()[i] == b'[' {
                             bracket_depth += 1;
                             i += 1;
                         } else {
@@ -195,13 +197,13 @@ impl FromStr for MatchResult {
                     let mut i = pos + 1;
 
                     while i < s.len() && bracket_depth > 0 {
-                        if s[i..].starts_with(']') {
+                        if s.as_bytes()[i] == b']' {
                             bracket_depth -= 1;
                             if bracket_depth == 0 {
                                 break;
                             }
                             i += 1;
-                        } else if s[i..].starts_with('[') {
+                        } else if s.as_bytes()[i] == b'[' {
                             bracket_depth += 1;
                             i += 1;
                         } else {
